@@ -20,12 +20,14 @@
   `iter_eq_spec_yearly_bymonth_nth_partial`: nth weekdays counted inside the month (MONTHLY, or YEARLY
   with BYMONTH) or the year (YEARLY without BYMONTH).  And `iter_eq_spec_yearly_easter_partial`: YEARLY with BYEASTER
   offsets −80..250 in 1583..4099, and `iter_eq_spec_yearly_weekno_partial`: YEARLY with BYWEEKNO on the
-  complement of D-C01c (any week start, plain BYDAY allowed).  And `iter_eq_spec_hourly_partial`: HOURLY
-  without BYHOUR, through a refinement with skipping (one turn of the loop may pass over several periods
-  of the specification; `n` turns = the first `m` periods, `n ≤ m ≤ 24·n`).  Missing: HOURLY with BYHOUR,
-  MINUTELY, SECONDLY (the same skipping refinement applies; the reachability loops `__mod_distance` /
-  `minutelyLoop` / `secondlyLoop` are only proved monotone so far), BYWEEKNO / BYEASTER for the other
-  frequencies, and mixing nth BYDAY / BYEASTER / BYWEEKNO with BYMONTHDAY (or nth BYDAY / BYEASTER
+  complement of D-C01c (any week start, plain BYDAY allowed).  And `iter_eq_spec_hourly_partial` /
+  `iter_eq_spec_minutely_partial` / `iter_eq_spec_secondly_partial`: the three sub-daily frequencies
+  without BY lists at or above their own unit (HOURLY: no BYHOUR; MINUTELY: no BYHOUR / BYMINUTE; SECONDLY:
+  no BYHOUR / BYMINUTE / BYSECOND), through a refinement with skipping (one turn of the loop may pass over
+  several periods of the specification; `n` turns = the first `m` periods, `n ≤ m ≤ 24·n` resp. `1440·n`,
+  `86400·n`).  Missing: the sub-daily frequencies with those BY lists (the reachability loops
+  `__mod_distance` / `minutelyLoop` / `secondlyLoop` beyond their first pass are only proved monotone so
+  far), BYWEEKNO / BYEASTER for the other frequencies, and mixing nth BYDAY / BYEASTER / BYWEEKNO with BYMONTHDAY (or nth BYDAY / BYEASTER
   with plain BYDAY).  Everything else below — including
   `iter_strictMono` for all seven frequencies — is proved for ALL rules / all argument sets, with no
   `Supported` hypothesis (so also inside the known-defect classes).
@@ -43,7 +45,7 @@ import DateutilVerif.Proofs.RRuleNthYM
 import DateutilVerif.Proofs.RRuleEasterYearly
 import DateutilVerif.Proofs.RRuleWeeknoYearly
 import DateutilVerif.Proofs.RRuleOrig
-import DateutilVerif.Proofs.RRuleHourly
+import DateutilVerif.Proofs.RRuleSecondly
 
 namespace C01
 open RRule Cal RRule.Tables
@@ -416,6 +418,22 @@ theorem iter_eq_spec_hourly_partial (a : Args) (r : Rule) (ha : HourlyArgs a) (h
     ∃ m, n ≤ m ∧ m ≤ 24 * n ∧ (iter r n).1 = Spec.RRule.occ a m :=
   iter_eq_spec_hourly ha h n hle
 
+/-- **`iter_eq_spec`, proved portion, MINUTELY** (no BYHOUR, no BYMINUTE; BYSECOND members 0..59): as
+    `iter_eq_spec_hourly_partial`, one turn passing over at most 1440 periods. -/
+theorem iter_eq_spec_minutely_partial (a : Args) (r : Rule) (ma : MinutelyArgs a) (h : construct a = .ok r) (n : Nat)
+    (hle : (Spec.RRule.startOrd a * 24 + a.dtstart.hh) * 60 + a.dtstart.mm + (1440 * n + 1) * a.interval + 1439 <
+      (maxOrdinal + 1) * 1440) :
+    ∃ m, n ≤ m ∧ m ≤ 1440 * n ∧ (iter r n).1 = Spec.RRule.occ a m :=
+  iter_eq_spec_minutely ma h n hle
+
+/-- **`iter_eq_spec`, proved portion, SECONDLY** (no BYHOUR / BYMINUTE / BYSECOND): as
+    `iter_eq_spec_hourly_partial`, one turn passing over at most 86400 periods. -/
+theorem iter_eq_spec_secondly_partial (a : Args) (r : Rule) (sa : SecondlyArgs a) (h : construct a = .ok r) (n : Nat)
+    (hle : ((Spec.RRule.startOrd a * 24 + a.dtstart.hh) * 60 + a.dtstart.mm) * 60 + a.dtstart.ss +
+      (86400 * n + 1) * a.interval + 86399 < (maxOrdinal + 1) * 86400) :
+    ∃ m, n ≤ m ∧ m ≤ 86400 * n ∧ (iter r n).1 = Spec.RRule.occ a m :=
+  iter_eq_spec_secondly sa h n hle
+
 /-! ### non-vacuity and the known-finding witnesses reproduced by the model -/
 
 def dt (y m d : Int) (hh : Int := 0) (mm : Int := 0) (ss : Int := 0) : DT := { y, m, d, hh, mm, ss, us := 0 }
@@ -497,6 +515,12 @@ example : ((match construct { freq := 4, dtstart := dt 2024 1 1 7, interval := 5
             | .ok r => (iterDT r 12).1 | .error _ => []).map (fun (t : DT) => (t.d, t.hh, t.mm))) =
     [(1, 7, 0), (1, 7, 30), (1, 12, 0), (1, 12, 30), (1, 17, 0), (1, 17, 30), (1, 22, 0), (1, 22, 30),
      (8, 4, 0), (8, 4, 30), (8, 9, 0), (8, 9, 30)] := by decide +kernel   -- 12 turns reach period 34 of the grid (170 h after the start)
+
+-- a MinutelyArgs and a SecondlyArgs instance: every 90 minutes in March; every 45 s on the 1st of the month
+example : MinutelyArgs { freq := 5, dtstart := dt 2024 2 28 23 30, interval := 90, bymonth := some [3] } :=
+  ⟨rfl, by decide, by decide, rfl, rfl, by intro x hx; simp at hx, rfl, rfl, by intro x hx; simp at hx⟩
+example : SecondlyArgs { freq := 6, dtstart := dt 2024 2 29 23 59 30, interval := 45, bymonthday := some [1] } :=
+  ⟨rfl, by decide, by decide, rfl, rfl, by decide, rfl, rfl, rfl⟩
 
 -- D-C01a: MONTHLY with plain MO and nth TU(1): nothing in a whole year although the set has every Monday
 example : dates (construct { freq := 1, dtstart := dt 2020 1 1 9, byweekday := some [(0, 0), (1, 1)] }) 12 = [] := by
